@@ -20,7 +20,7 @@
 (* and 4 leave the size of repetition 2 unchanged whenever the cycle is    *)
 (* net-zero on the abstract state.                                         *)
 (***************************************************************************)
-EXTENDS Naturals, Integers, Sequences, FiniteSets, TLC
+EXTENDS Naturals, Integers, Sequences, FiniteSets, TLC, IOUtils
 
 CONSTANTS Names,        \* e.g. {"a", "b", "c"}
           Sizes,        \* stream sizes / write lengths, in bytes of the tiny geometry
@@ -135,10 +135,19 @@ Init ==
   /\ p = P!Fresh /\ model = <<>> /\ nops = 0
   /\ phase = "prefix" /\ cyc = <<>> /\ pos = 1 /\ rep = 0 /\ sizes = <<>> /\ base = <<>>
 
+(* case analysis coverage (CfbPhys): with CLASSES set in the environment every transition prints its class *)
+EmitClasses == "CLASSES" \in DOMAIN IOEnv
+OpClass(q, m, o) ==
+  CASE o.op = "write"         -> P!WriteCaseOf(q, P!FindChild(q, 0, o.n), o.a, o.b)
+    [] o.op = "set_len"       -> P!ResizeCaseOf(q, P!FindChild(q, 0, o.n), o.a)
+    [] o.op = "create_stream" -> (IF o.n \in DOMAIN m THEN "recreate" ELSE "create_stream")
+    [] o.op = "remove"        -> (IF m[o.n].kind = "stream" THEN "remove_stream" ELSE "remove_storage")
+    [] OTHER -> o.op
 Do(o) ==
   /\ phase = "prefix" /\ nops < MaxOps /\ Enabled(model, o)
   /\ p' = ApplyPhys(p, model, o) /\ model' = ApplyModel(model, o) /\ nops' = nops + 1
   /\ UNCHANGED <<phase, cyc, pos, rep, sizes, base>>
+  /\ (EmitClasses => PrintT(<<"CLASS", P!StepClass(OpClass(p, model, o), p, p')>>))
 
 StartCycle ==
   /\ Cycles /\ phase = "prefix"
